@@ -255,17 +255,26 @@ def r3b_payload_paths(report, repo):
   lib.decision_table(report, rule, f, ['expired'], cl, sp)
   rule4 = 'C13-R4'
   r = repo.func(AM, CLS + '.read_message')
+  # locals named by what they are bound from
+  rmsg = lib.local_from(r, lib.calls(attr='RawAdbMessage'), 'raw_message')
+  rhdr = lib.local_from(
+      r, lambda e: isinstance(e, ast.Call) and
+      call_name(e) == 'self._transport.read' and any(
+          call_name(x) == 'struct.calcsize' for x in ast.walk(e)),
+      'raw_header')
+  vd = [c for c in core.calls_in(r.node, attr='to_adb_message')]
+  dname = dotted(vd[0].args[0]) if vd and vd[0].args else 'data'
 
   def cl2(expr, steps):
     if isinstance(expr, ast.Compare) and len(expr.ops) == 1 and \
-        norm(expr.left) == 'raw_message.data_length' and isinstance(
+        norm(expr.left) == rmsg + '.data_length' and isinstance(
             expr.comparators[0], ast.Constant) and \
         expr.comparators[0].value == 0:
       if isinstance(expr.ops[0], (ast.Gt, ast.NotEq)):
         return 'has_payload'
       if isinstance(expr.ops[0], ast.Eq):
         return ('not', 'has_payload')
-    if core.is_name(expr, 'raw_header'):
+    if core.is_name(expr, rhdr):
       return 'got_header'
     return None
 
@@ -278,18 +287,18 @@ def r3b_payload_paths(report, repo):
              if isinstance(s_, ast.Call) and
              call_name(s_) == 'self._transport.read']
     pay = [c for c in reads if c.args and
-           norm(c.args[0]) == 'raw_message.data_length']
+           norm(c.args[0]) == rmsg + '.data_length']
     if v['has_payload']:
       if len(pay) != 1:
         return ('payload-row: a frame announcing a payload must read exactly '
                 'data_length bytes (payload reads: %d)' % len(pay))
-      src = p.value_of('data')
+      src = p.value_of(dname)
       if src is not pay[0]:
         return 'payload-row: the validated data is not what was read'
     else:
       if pay:
         return 'empty-row: a payload is read for a frame announcing none'
-      src = p.value_of('data')
+      src = p.value_of(dname)
       if not (isinstance(src, ast.Constant) and src.value in ('', b'')):
         return 'empty-row: data must be empty for a frame without payload'
     return None
@@ -325,10 +334,14 @@ def r4_validation(report, repo):
                if any(call_name(x) == 'struct.calcsize' for x in ast.walk(c))]
   report.check(len(hdr_reads) == 1, rule, f.qualname, 'header-size', f.node,
                'the header read asks for struct.calcsize(format) bytes')
-  empt = [n for n in g.nodes if n.kind == 'test' and core.is_name(n.ast,
-                                                                  'raw_header')]
-  ok = len(empt) == 1 and isinstance(empt[0].succ('F').ast, ast.Raise) and \
-      last_attr(empt[0].succ('F').ast.exc) == 'AdbProtocolError'
+  rhdr = lib.local_from(f, lambda e: any(c is e for c in hdr_reads),
+                        'raw_header')
+  empt = [n for n in g.nodes if n.kind == 'test' and core.is_name(n.ast, rhdr)]
+  ok = len(empt) == 1 and lib.branch_must_raise(g, empt[0], 'F') and any(
+      isinstance(x.ast, ast.Raise) and
+      last_attr(x.ast.exc) == 'AdbProtocolError'
+      for x in [empt[0].succ('F')] + g.reach(
+          [empt[0].succ('F')], avoid_edge=lambda a, l, b: l == 'exc'))
   report.check(ok, rule, f.qualname, 'empty-header', f.node,
                'an empty header raises AdbProtocolError')
   ups = core.calls_in(f.node, name='struct.unpack')
@@ -426,12 +439,18 @@ def r5_tables(report, repo):
             b.generators[0].target, ast.Tuple) and dotted(b.key) == dotted(
                 b.generators[0].target.elts[1]) and dotted(b.value) == dotted(
                     b.generators[0].target.elts[0]) and call_name(
-                        b.generators[0].iter) == 'cmd_to_wire.items'
+                        b.generators[0].iter) == (lib.local_from(
+                            f, lambda e: e is a, 'cmd_to_wire') + '.items')
     # little-endian packing of the 4 characters
     sh = [x for x in ast.walk(a.value) if isinstance(x, ast.BinOp) and
           isinstance(x.op, ast.LShift)]
+    idx = None
+    for x in ast.walk(a.value):
+      if isinstance(x, ast.comprehension) and call_name(x.iter) == \
+          'enumerate' and isinstance(x.target, ast.Tuple):
+        idx = dotted(x.target.elts[0])
     ok = ok and len(sh) == 1 and call_name(sh[0].left) == 'ord' and \
-        norm(sh[0].right) in ('i * 8', '8 * i')
+        idx is not None and norm(sh[0].right) in (idx + ' * 8', '8 * ' + idx)
   report.check(ok, rule, f.qualname, 'inverse-tables', f.node,
                'cmd->wire packs characters little-endian; wire->cmd is its '
                'inverse')
